@@ -32,6 +32,18 @@ func (ix *idxEngine) intFacts(p *prover, v ssa.Value, t string, at ssa.Instructi
 				}
 			}
 		}
+	case *ssa.Call:
+		// documented postconditions of standard-library searches
+		if f := x.Call.StaticCallee(); f != nil && funcPkgPath(f) == "strings" || f != nil && funcPkgPath(f) == "bytes" {
+			switch f.Name() {
+			case "IndexByte", "IndexRune", "IndexAny", "IndexFunc", "LastIndexByte", "LastIndexAny", "LastIndexFunc":
+				out = append(out, leq(linConst(-1), linTerm(t), f.Name()+" returns -1 or an index"),
+					leq(linTerm(t), p.lenOf(x.Call.Args[0]).add(linConst(-1)), f.Name()+" returns an index below the length"))
+			case "Index", "LastIndex":
+				out = append(out, leq(linConst(-1), linTerm(t), f.Name()+" returns -1 or an index"),
+					leq(linTerm(t), p.lenOf(x.Call.Args[0]), f.Name()+" returns an index within the string"))
+			}
+		}
 	case *ssa.Phi:
 		if p.isLoopPhi(x) {
 			out = append(out, p.headerBoundInvariant(x, t)...)
